@@ -34,8 +34,8 @@ def _tree(t: int, inputs):
     i0, i1, i2 = inputs
     if t == 0:
         return [("G", "SG1", "Muss [1]", [("G", "SG2", "Soll [2]", [], [("S", "SG2-SEG", "Kann [3]", [("F", "SG2-DE", "Muss [1] U [2]", i0)])])],
-                 [("S", "SEG1", "X [2]", [("F", "DE1", "Soll [3][901]", i1), ("V", "DE2", [("A", "X [1]"), ("B", "X [2]"), ("C", "X")], i2)]),
-                  ("S", "SEG2", "Soll [3] Kann [1]", [("F", "DE3", "Muss", i0)])])]
+                 [("S", "SEG1", "X [2]", [("F", "DE1", "Soll [3][901]", i1), ("V", "DE2", [("A", "X [1]"), ("B", "X [2]"), ("C", "X")], i2), ("F", "DE4", "Soll", i0)]),
+                  ("S", "SEG2", "Soll [3] Kann [1]", [("F", "DE3", "Muss", i0)]), ("S", "SEG3", "s", [("F", "DE5", "S [1]", i1)])])]
     if t == 1:
         return [("G", "SG1", "Kann", [("G", "SG2", "Muss [1P]", [], [("S", "SG2-SEG", "Soll", [("F", "SG2-DE", "Soll [1][902]", i0)])])],
                  [("S", "SEG1", "Muss [3] Soll [2]", [("V", "DE2", [("A", "X")], i2), ("F", "DE1", "X [501]", i1)])]),
@@ -162,7 +162,7 @@ INP = ((None, "text", "A"), ("2022-01-01T00:00:00+00:00", "", "ZZZ"), ("x", None
 
 def tree_glue(s1: int, s2: int, s3: int, soll: bool, iv: int, f901: bool, flag2: bool) -> bool:
     """
-    pre: (FIXS1 < 0 or s1 == FIXS1) and (FIXS2 < 0 or s2 == FIXS2) and (FLAG2_FREE == 1 or flag2 != soll) and 0 <= s1 < 3 and 0 <= s2 < 3 and 0 <= s3 < 3 and 0 <= iv < NINP and (F901 < 0 or f901 == (F901 == 1))
+    pre: (FIXS1 < 0 or s1 == FIXS1) and (FIXS2 < 0 or s2 == FIXS2) and (FLAG2_FREE == 1 or MODE != "C14" or flag2 != soll) and 0 <= s1 < 3 and 0 <= s2 < 3 and 0 <= s3 < 3 and 0 <= iv < NINP and (F901 < 0 or f901 == (F901 == 1))
     post: _
     """
     s1, s2, s3, iv = xs.pick(s1, 0, 3), xs.pick(s2, 0, 3), xs.pick(s3, 0, 3), xs.pick(iv, 0, NINP)
@@ -178,7 +178,7 @@ def tree_glue(s1: int, s2: int, s3: int, soll: bool, iv: int, f901: bool, flag2:
     got = _validate(spec, soll_c)
     ctx = f"tree {TREE}, states {states}, soll_is_required={soll_c}, inputs {INP[iv]}"
     if MODE == "C14":
-        spec2 = rewrite(_tree(TREE, INP[iv]), lambda e: re.sub(r"\b(Soll|SOLL|soll|S)\b(?=\s*(\[|\(|$|[A-Z]))", "Muss" if soll_c else "Kann", e))
+        spec2 = rewrite(_tree(TREE, INP[iv]), lambda e: re.sub(r"(?i)\b(soll|s)\b(?=\s*(\[|\(|$|[A-Za-z]))", "Muss" if soll_c else "Kann", e))
         got2 = _validate(spec2, flag2_c)
         xs.reached()
         if got != got2:
